@@ -330,8 +330,11 @@ def normalise_function(fn: ast.AST, pinned: list) -> None:
         return
     missing = [n for n in pinned if n not in cur]
     if len(new) > len(missing):
-        inl = inline_temporaries(fn, only=set(new))
-        fn.body = inl.body
+        from . import equiv
+
+        guard = 0
+        while equiv.inline_temporaries(fn, only=set(new)) and guard < 100:
+            guard += 1
         cur = own_locals(fn)
         new = [n for n in cur if n not in pinned]
         missing = [n for n in pinned if n not in cur]
@@ -340,6 +343,268 @@ def normalise_function(fn: ast.AST, pinned: list) -> None:
         if not any(m in used for m in missing):
             for a, b in zip(new, missing):
                 _rename_local(fn, a, b)
+
+
+def _simple_expr(e: ast.AST) -> bool:
+    """An argument expression that may be substituted for a parameter without changing evaluation (name, constant, attribute
+    chain of a name)."""
+    while isinstance(e, ast.Attribute):
+        e = e.value
+    return isinstance(e, (ast.Name, ast.Constant))
+
+
+def _helper_kind(fn: ast.AST, owner: ast.AST) -> typing.Optional[str]:
+    decos = [dotted(d) or '' for d in fn.decorator_list]
+    if any(d not in ('staticmethod', 'classmethod') for d in decos):
+        return None
+    a = fn.args
+    if a.vararg or a.kwarg or a.posonlyargs or a.kwonlyargs or isinstance(fn, ast.AsyncFunctionDef):
+        return None
+    if isinstance(owner, ast.ClassDef):
+        if 'staticmethod' in decos:
+            return 'static'
+        if 'classmethod' in decos:
+            return 'class'
+        return 'method' if a.args and a.args[0].arg == 'self' else None
+    return 'plain'
+
+
+def _inlinable_body(fn: ast.AST, retry: bool = True) -> typing.Optional[list]:
+    """Statements of a straight-line helper: no yield, returns only as the very last statement.  A helper that is not in that
+    shape is tried once more with its conditionals folded (guard clauses / if-else returns -> one conditional expression)."""
+    if retry:
+        first = _inlinable_body(fn, retry=False)
+        if first is not None:
+            return first
+        from . import equiv
+
+        clone = ast.parse(ast.unparse(fn)).body[0]
+        equiv.strip_meta(clone)
+        for _ in range(3):
+            equiv.canonical_tests(clone)
+            equiv.sink_returns(clone)
+            equiv.flatten_conditionals(clone)
+        ast.fix_missing_locations(clone)
+        for x in ast.walk(clone):
+            if hasattr(x, 'lineno'):
+                x.lineno = getattr(fn, 'lineno', 1)
+                x.end_lineno = getattr(fn, 'lineno', 1)
+        return _inlinable_body(clone, retry=False)
+    body = [x for x in fn.body if not (isinstance(x, ast.Expr) and isinstance(x.value, ast.Constant))]
+    if not body:
+        return None
+    for i, st in enumerate(body):
+        for x in ast.walk(st):
+            if isinstance(x, (ast.Yield, ast.YieldFrom, ast.Await, ast.Global, ast.Nonlocal)):
+                return None
+            if isinstance(x, ast.Return) and not (x is st and i == len(body) - 1):
+                return None
+            if isinstance(x, FUNC + (ast.ClassDef,)):
+                return None
+    return body
+
+
+def inline_unknown_helpers(mod: 'Module', pinned: dict) -> bool:
+    """Undo an *extract method* refactoring: a function the pinned tree does not know (a new private helper), straight-line,
+    called from statement positions (``x = h(..)``, ``return h(..)``, ``h(..)``) - or a one-expression helper called anywhere -
+    is spliced back into its callers and removed.  Anything less simple is left alone."""
+    prefix = mod.name + ':'
+    if not any(k.startswith(prefix) for k in pinned):
+        return False
+    changed = inline_helpers(mod.tree, mod.defs, lambda qual, node: prefix + qual not in pinned)
+    if changed:
+        ast.fix_missing_locations(mod.tree)
+        set_parents(mod.tree)
+    return changed
+
+
+def _caller_of(node: ast.AST) -> typing.Optional[ast.AST]:
+    cur = parent(node)
+    while cur is not None and not isinstance(cur, FUNC):
+        cur = parent(cur)
+    return cur
+
+
+def inline_helpers(tree: ast.AST, defs: dict, select: typing.Callable[[str, ast.AST], bool]) -> bool:
+    """Splice the selected helper functions of ``defs`` (qualname -> node, all below ``tree``, parents set) into their call
+    sites.  Side conditions: no decorator but static/classmethod, plain parameters, straight-line body (one ``return``, last),
+    only ever referenced as the callee of plain calls; every call is either the whole value of a simple statement or the helper
+    is a single expression.  Helper locals that clash with names of the caller are renamed; a non-trivial argument is bound
+    to the parameter name first.  Returns whether anything changed."""
+    import copy
+
+    changed = False
+    for qual in sorted(defs, key=lambda q: -q.count('.')):
+        node = defs.get(qual)
+        if not isinstance(node, FUNC) or not select(qual, node):
+            continue
+        owner = parent(node)
+        if owner is None:
+            continue
+        kind = _helper_kind(node, owner)
+        body = _inlinable_body(node) if kind else None
+        if not kind or body is None:
+            continue
+        params = [a.arg for a in node.args.args]
+        defaults = dict(zip(params[len(params) - len(node.args.defaults):], node.args.defaults))
+        bound = params[1:] if kind in ('method', 'class') else params
+        if kind == 'class' and any(isinstance(x, ast.Name) and x.id == params[0] for st in body for x in ast.walk(st)):
+            continue
+        name = node.name
+        scope = owner
+        cls_name = owner.name if isinstance(owner, ast.ClassDef) else None
+
+        def is_call(c: ast.AST) -> bool:
+            if not isinstance(c, ast.Call) or any(isinstance(a, ast.Starred) for a in c.args) or any(k.arg is None for k in c.keywords):
+                return False
+            f = c.func
+            if isinstance(owner, ast.ClassDef):
+                return isinstance(f, ast.Attribute) and f.attr == name and ((isinstance(f.value, ast.Name) and f.value.id in ('self', 'cls')) or (dotted(f.value) or '').split('.')[-1] == cls_name)
+            return isinstance(f, ast.Name) and f.id == name
+
+        inside = {id(x) for x in ast.walk(node)}
+        sites = [c for c in ast.walk(scope) if is_call(c) and id(c) not in inside]
+        if not sites:
+            continue
+        funcs = {id(c.func) for c in sites}
+        other_refs = [x for x in ast.walk(scope) if ((isinstance(x, ast.Attribute) and x.attr == name) or (isinstance(x, ast.Name) and x.id == name)) and id(x) not in funcs and id(x) not in inside]
+        if other_refs:
+            continue  # passed around as a value / recursive: not a plain call-only helper
+        helper_locals = {x.id for st in body for x in ast.walk(st) if isinstance(x, ast.Name) and isinstance(x.ctx, ast.Store)}
+        helper_locals |= {a.arg for st in body for x in ast.walk(st) if isinstance(x, ast.comprehension) for a in []}
+
+        def instantiate(call: ast.Call, caller: typing.Optional[ast.AST], target: set) -> typing.Optional[tuple]:
+            """(prelude statements, body statements without the final return, return expression or None)"""
+            binding = {}
+            if len(call.args) > len(bound):
+                return None
+            for p_, a in zip(bound, call.args):
+                binding[p_] = a
+            for k in call.keywords:
+                if k.arg not in bound or k.arg in binding:
+                    return None
+                binding[k.arg] = k.value
+            for p_ in bound:
+                if p_ not in binding:
+                    if p_ in defaults:
+                        binding[p_] = defaults[p_]
+                    else:
+                        return None
+            stmts = copy.deepcopy(body)
+            caller_names = set()
+            if caller is not None:
+                caller_names = {x.id for x in ast.walk(caller) if isinstance(x, ast.Name) and id(x) not in inside} | _fn_params(caller)
+                caller_names -= {name}
+            # helper names that would capture / be captured by caller names are renamed apart (except the statement's own target)
+            rename = {}
+            for loc in sorted(helper_locals | set(bound)):
+                same_arg = loc in binding and isinstance(binding[loc], ast.Name) and binding[loc].id == loc
+                if loc in caller_names and loc not in target and not (same_arg and loc not in helper_locals):
+                    rename[loc] = loc + '__h'
+            if rename:
+                for st in stmts:
+                    for x in ast.walk(st):
+                        if isinstance(x, ast.Name) and x.id in rename:
+                            x.id = rename[x.id]
+            prelude = []
+            subst = {}
+            for p_, a in binding.items():
+                q_ = rename.get(p_, p_)
+                if isinstance(a, ast.Name) and a.id == q_:
+                    continue
+                if _simple_expr(a) and p_ not in helper_locals and not (isinstance(a, ast.Name) and a.id in helper_locals):
+                    subst[q_] = a
+                else:
+                    prelude.append(ast.Assign(targets=[ast.Name(id=q_, ctx=ast.Store())], value=copy.deepcopy(a), lineno=call.lineno, col_offset=0))
+
+            class Sub(ast.NodeTransformer):
+                def visit_Name(self, n):  # noqa: N802
+                    if isinstance(n.ctx, ast.Load) and n.id in subst:
+                        return copy.deepcopy(subst[n.id])
+                    return n
+
+            stmts = [Sub().visit(st) for st in stmts]
+            ret = None
+            if stmts and isinstance(stmts[-1], ast.Return):
+                ret = stmts[-1].value
+                stmts = stmts[:-1]
+            return prelude, stmts, ret
+
+        done = 0
+        for call in sites:
+            st = call
+            while st is not None and not isinstance(st, ast.stmt):
+                st = parent(st)
+            if st is None:
+                continue
+            container = parent(st)
+            seq = None
+            for f in ('body', 'orelse', 'finalbody'):
+                cand = getattr(container, f, None)
+                if isinstance(cand, list) and any(x is st for x in cand):
+                    seq = cand
+            if seq is None:
+                continue
+            whole = isinstance(st, (ast.Assign, ast.AnnAssign, ast.Return, ast.Expr)) and getattr(st, 'value', None) is call
+            target = set()
+            if whole and isinstance(st, (ast.Assign, ast.AnnAssign)):
+                # names the call statement (re)binds anyway: a helper local of the same name may share the variable
+                for t in (st.targets if isinstance(st, ast.Assign) else [st.target]):
+                    if isinstance(t, ast.Name):
+                        target.add(t.id)
+                    elif isinstance(t, (ast.Tuple, ast.List)) and all(isinstance(e, ast.Name) for e in t.elts):
+                        target |= {e.id for e in t.elts}
+            inst = instantiate(call, _caller_of(st), target)
+            if inst is None:
+                continue
+            prelude, stmts, ret = inst
+            k = next(i for i, x in enumerate(seq) if x is st)
+            if whole:
+                if isinstance(st, ast.Expr):
+                    tail = [] if ret is None or _simple_expr(ret) else [ast.Expr(value=ret)]
+                elif ret is None:
+                    if isinstance(st, ast.Return):
+                        tail = [ast.Return(value=None)]
+                    else:
+                        continue
+                else:
+                    new_st = copy.copy(st)
+                    new_st.value = ret
+                    tail = [new_st]
+                    if isinstance(new_st, ast.Assign) and len(new_st.targets) == 1 and src(new_st.targets[0]).strip('()') == src(ret).strip('()'):
+                        tail = []  # ``a, b = a, b``: the helper left its results in the very variables they are assigned to
+                seq[k:k + 1] = prelude + stmts + tail
+                done += 1
+            elif not prelude and not stmts and ret is not None:
+                # one-expression helper inside a larger expression
+                class Rep(ast.NodeTransformer):
+                    def visit_Call(self, n):  # noqa: N802
+                        self.generic_visit(n)
+                        return ret if n is call else n
+
+                seq[k] = Rep().visit(st)
+                done += 1
+            ast.fix_missing_locations(container)
+            set_parents(tree)
+        if done == len(sites):
+            seq = getattr(owner, 'body', None)
+            for f in ('body', 'orelse', 'finalbody'):
+                cand = getattr(owner, f, None)
+                if isinstance(cand, list) and any(x is node for x in cand):
+                    cand[:] = [x for x in cand if x is not node] or [ast.Pass()]
+            # nested helper defined in a nested block of the owner
+            for blk in ast.walk(owner):
+                for f in ('body', 'orelse', 'finalbody'):
+                    cand = getattr(blk, f, None)
+                    if isinstance(cand, list) and any(x is node for x in cand):
+                        cand[:] = [x for x in cand if x is not node] or [ast.Pass()]
+            changed = True
+        elif done:
+            changed = True
+    if changed:
+        ast.fix_missing_locations(tree)
+        set_parents(tree)
+    return changed
 
 
 def canonical_ifs(tree: ast.AST) -> bool:
@@ -415,6 +680,7 @@ class Module:
         self.imports: dict[str, str] = {}
         self.defs: dict[str, ast.AST] = {}  # qualname -> ClassDef/FunctionDef (nested included)
         self.assigns: dict[str, ast.AST] = {}  # top-level NAME = value
+        self.equivalent: list = []  # functions replaced by their reference spelling (proved equivalent, fv/equiv.py)
         self._index()
         if not os.environ.get('FV_NO_NORMALISE'):
             self._normalise()
@@ -427,6 +693,20 @@ class Module:
         changed = False
         if strip_noops(self.tree):
             changed = True
+        if inline_unknown_helpers(self, pinned):
+            changed = True
+            self.defs.clear()
+            self.assigns.clear()
+            self._index()
+        if changed:
+            ast.fix_missing_locations(self.tree)
+            set_parents(self.tree)
+
+    def _normalise_mild(self) -> None:
+        """Second phase (after the equivalence substitution, see Program): functions that could not be proved equivalent to
+        their reference spelling still get unknown temporaries inlined and renamed locals mapped back."""
+        pinned = pinned_locals()
+        changed = False
         if canonical_ifs(self.tree):
             changed = True
         for qual in sorted(self.defs, key=lambda q: q.count('.')):
@@ -768,6 +1048,22 @@ class Program:
                 with open(path, encoding='utf-8') as fh:
                     source = fh.read()
                 self.modules[name] = Module(name, path, rel, is_pkg, source)
+        if not os.environ.get('FV_NO_NORMALISE'):
+            from . import equiv
+
+            changed_mods = [m for m in self.modules.values() if equiv.pinned_sources().get(m.name) not in (None, m.source)]
+            sigs = equiv.SignatureIndex(self.modules.values()) if changed_mods else None
+            for mod in changed_mods:
+                mod.equivalent = equiv.substitute_equivalent(mod, sigs)
+                if mod.equivalent:
+                    ast.fix_missing_locations(mod.tree)
+                    set_parents(mod.tree)
+                    mod.defs.clear()
+                    mod.assigns.clear()
+                    mod._index()  # pylint: disable=protected-access
+            if not os.environ.get('FV_NO_MILD'):
+                for mod in self.modules.values():
+                    mod._normalise_mild()  # pylint: disable=protected-access
         for mod in self.modules.values():
             for qual, node in mod.defs.items():
                 if isinstance(node, ast.ClassDef):
